@@ -113,6 +113,7 @@ type 'a api = {
   by_index : 'a -> int64 -> string;
   by_seg_string : 'a -> string -> string;
   by_seg_int : 'a -> int64 -> string;
+  rebuild : 'a -> string;        (* a map re-assembled from the collected (key, value) pairs vs the source: T F P *)
 }
 
 let map_absent_probes = [""; "zz"; "0"; "1"]
@@ -132,6 +133,14 @@ let rec render : 'a. 'a api -> Buffer.t -> 'a -> unit = fun a b n ->
      List.iter (fun (k, v) -> keys := k :: !keys; kids := v :: !kids;
                  add ("k" ^ hex_of_str k ^ "=" ^ a.dump v ^ ",")) es;
      add "]"; add ov);
+  (* the pass that collects all (key node, value node) pairs first and reads them afterwards *)
+  add ";rk:";
+  (match a.mi n with
+   | None -> add "nil"
+   | Some (es, _) ->
+     add "[";
+     List.iter (fun (k, _) -> add ("k" ^ hex_of_str k ^ ":" ^ a.by_node_string n k ^ ",")) es;
+     add "]rb:"; add (a.rebuild n));
   add ";li:";
   let nlist = ref 0 in
   (match a.li n with
@@ -188,6 +197,8 @@ let cell_of_res = function Ok v -> "=" ^ mdump v | Err e -> "!" ^ err_letter e
 let is_fmap = function NFMap _ -> true | _ -> false
 let is_flist = function NFList _ -> true | _ -> false
 
+let quirks_hook : (unit -> quirks) ref = ref (fun () -> pinned)
+
 let model_api : node api = {
   kind_name = (fun n -> kind_name_of (kind_of n));
   len = (fun n -> string_of_int (int_of_z (length_of n)));
@@ -227,6 +238,14 @@ let model_api : node api = {
       | Err ENotExists when is_fmap n -> "?!e/!k"
       | Err EInvalidSegment when is_flist n -> "?!g/!o"
       | r -> cell_of_res r);
+  rebuild = (fun n ->
+      (* key nodes are values in the model: the rebuilt basicnode map holds the same entries *)
+      match map_entries n with
+      | None -> "-"
+      | Some es ->
+        let t = List.map (fun (k, v) -> ((match as_string k with Ok s -> s | Err _ -> []), v)) es in
+        (match deep_equal (!quirks_hook ()) (NMap (t, List.rev t)) n with
+         | ROk true -> "T" | ROk false -> "F" | _ -> "!P"));
 }
 
 (* ---------------------------------------------------------------- instance 2: the specification *)
@@ -301,6 +320,7 @@ let spec_api : dm api = {
       | DMap _ -> spec_by_string v (if Int64.compare i 0L < 0 then "" else Int64.to_string i)
       | DList _ -> if Int64.compare i 0L < 0 then "?!g/!o" else spec_by_index v i
       | _ -> "!w");
+  rebuild = (fun v -> if dm_goeq v v then "T" else "F");
 }
 
 (* ---------------------------------------------------------------- alternatives *)
@@ -353,6 +373,7 @@ let sections (s : string) : string list = String.split_on_char '|' s
 let qr_pmap = ref true and qr_eq = ref true and qr_copy = ref true and qr_stream = ref true
 let current_quirks () : quirks =
   { q_pmap_nilmap = !qr_pmap; q_eq_asint = !qr_eq; q_copy_asint = !qr_copy; q_stream_oneshot = !qr_stream }
+let () = quirks_hook := current_quirks
 
 
 (* ---- Build, Reset, build again with the same builder (records "c01r") *)
@@ -517,7 +538,22 @@ let () =
             end else if get ss "b" <> get is "b" then addc "build_panic"
             else begin
               if get ss "t" <> get is "t" then addc "readback";
-              if get ss "r" <> get is "r" then addc "views_disagree";
+              if get ss "r" <> get is "r" then begin
+                let sc = String.split_on_char ';' (get ss "r") and ic = String.split_on_char ';' (get is "r") in
+                let only_retained =
+                  List.length sc = List.length ic &&
+                  List.for_all2 (fun a b -> a = b || (String.length a >= 3 && String.sub a 0 3 = "rk:")) sc ic in
+                (* generated maps: LookupByNode with a key node that is not of the generated key type panics *)
+                let only_bynode_panics =
+                  List.length sc = List.length ic &&
+                  List.for_all2 (fun a b -> a = b || b = "n:!P" || b = "ni:!P") sc ic in
+                let has_gen_map =
+                  List.exists (fun t -> String.length t >= 2 && t.[0] = 'Q' && t.[1] >= '0' && t.[1] <= '9')
+                    (String.split_on_char ' ' script) in
+                addc (if only_retained then "iter_key_retained"
+                      else if only_bynode_panics && has_gen_map then "gen_map_lookupbynode_foreign_key_panic"
+                      else "views_disagree")
+              end;
               let se = get ss "e" and ie = get is "e" in
               if se <> ie then begin
                 let only_panics = String.length se = String.length ie &&
